@@ -104,7 +104,7 @@ def fmt(x):
     return repr(float(x))
 
 
-def render_top(spec):
+def render_top(spec, include=None):
     lines = ["[ defaults ]", f"1 {spec['comb']} no 1.0 1.0", "[ atomtypes ]"]
     for at in spec["atomtypes"]:
         if spec["comb"] == 1:
@@ -116,8 +116,11 @@ def render_top(spec):
             # an earlier definition of the same type with another mass: the later line is the one in force
             lines.append(f"{at['name']} {fmt(at['mass'] + 29.0)} 0.0 A {nb1!r} {nb2!r}")
         lines.append(f"{at['name']} {fmt(at['mass'])} 0.0 A {nb1!r} {nb2!r}")
-    for mt in spec["moltypes"]:
-        lines += render_moltype(mt)
+    if include is not None:
+        lines.append(f'#include "{include}"')
+    else:
+        for mt in spec["moltypes"]:
+            lines += render_moltype(mt)
     lines += ["[ system ]", "generated", "[ molecules ]"]
     for name, cnt in spec["molecules"]:
         lines.append(f"{name} {cnt}")
@@ -265,7 +268,27 @@ def run_gen_coords(spec, ctx, timeout=15, kwargs_extra=None, before_build=None, 
     from polyply.src.generate_templates import GenerateTemplates
     from polyply.src.backmap import Backmap
     top = ctx.dir / "system.top"
-    top.write_text(render_top(spec))
+    if spec.get("include_layout"):
+        # the molecule types live in a file of their own that the .top file includes; with "primed" another version
+        # of that file (other residue and atom names) was read from the same path earlier in this process
+        inc = ctx.dir / "mols.itp"
+        top.write_text(render_top(spec, include="mols.itp"))
+        if spec.get("primed"):
+            import copy
+            from polyply.src.topology import Topology
+            decoy = copy.deepcopy(spec["moltypes"])
+            for mt in decoy:
+                for r in mt["residues"]:
+                    r["resname"] = "Q" + r["resname"][1:]
+                    r["atoms"] = [dict(a, name="q" + a["name"][1:]) for a in r["atoms"]]
+            inc.write_text("\n".join(l for mt in decoy for l in render_moltype(mt)) + "\n")
+            try:
+                Topology.from_gmx_topfile(name="earlier", path=top)
+            except Exception:
+                pass
+        inc.write_text("\n".join(l for mt in spec["moltypes"] for l in render_moltype(mt)) + "\n")
+    else:
+        top.write_text(render_top(spec))
     opts = dict(spec.get("opts", {}))
     kwargs = {"toppath": top, "outpath": ctx.dir / "out.gro", "name": "test"}
     if opts.get("box") is not None:
